@@ -107,6 +107,29 @@ pub fn run(case: &str, st: &mut Stats) -> Outcome {
         st.bump("smooth_all_levels");
     } else {
         st.bump("smooth_prefix");
+        // a function that only depends on the smoothed prefix: the counts are the brute-force sums
+        // over the assignments of those n variables
+        let prefix: Vec<usize> = (0..nsm).map(|l| b.var_at_level(l) as usize).collect();
+        let rest: Vec<usize> = (nsm..total).map(|l| b.var_at_level(l) as usize).collect();
+        let depends_on_rest = rest.iter().any(|v| (0..(1usize << total)).any(|a| tp[a] != tp[a ^ (1 << v)]));
+        if !depends_on_rest {
+            let (mut models, mut brute) = (0u128, 0u128);
+            for m in 0..(1usize << nsm) {
+                let mut a = 0usize;
+                for (j, v) in prefix.iter().enumerate() { if (m >> j) & 1 == 1 { a |= 1 << v; } }
+                if tp[a] {
+                    models += 1;
+                    brute += prefix.iter().map(|v| if (a >> v) & 1 == 1 { w[*v].1 as u128 } else { w[*v].0 as u128 }).product::<u128>();
+                }
+            }
+            if wf != brute {
+                fails.push(format!("smoothed over the first {nsm} variables (the function depends on no other): weighted count {wf}, brute-force weighted sum over those variables {brute}"));
+            }
+            if mc != models {
+                fails.push(format!("smoothed over the first {nsm} variables (the function depends on no other): unweighted count {mc}, the function has {models} models over those variables"));
+            }
+            st.bump("smooth_prefix_count_checked");
+        }
     }
     // which levels does the argument skip?
     let top_level = match p { BddPtr::Reg(n) | BddPtr::Compl(n) => Some(b.level(n.var.value())), _ => None };
